@@ -187,7 +187,8 @@ def masking(index: RepoIndex, rep, rule: str, pipe: Pipeline) -> None:
             while isinstance(t, (ast.Subscript, ast.Attribute)):
                 t = t.value
             if isinstance(t, ast.Name) and t.id == g and \
-                    e.node.func.attr not in ('positions', 'contains'):
+                    e.node.func.attr not in ('positions', 'contains', 'y_coordinates',
+                                             'x_coordinates'):
                 rep.violation(rule, OBS, 'from_visibility', e.line, src(e.node),
                               f'the observation grid is modified/consulted through '
                               f'`{src(e.node.func)}` besides the masking loop')
@@ -204,6 +205,18 @@ def masking(index: RepoIndex, rep, rule: str, pipe: Pipeline) -> None:
         val_ok = e.value is not None and src(e.value) == 'Hidden()'
         loop_ok = bool(e.loops) and src(e.loops[-1][0]) == pos and \
             src(e.loops[-1][1]) in (f'{g}.area.positions()', f"{g}.area.positions('all')")
+        yx = None
+        if not loop_ok and len(e.loops) >= 2 and isinstance(e.target.slice, ast.Tuple) and \
+                len(e.target.slice.elts) == 2:
+            # nested loops over all rows and all columns of the observation grid
+            ty, tx = (src(x) for x in e.target.slice.elts)
+            its = {src(t): src(it) for t, it in e.loops[-2:]}
+            rows = (f'{g}.area.y_coordinates()', f'range({g}.shape.height)',
+                    f'range({g}.area.height)')
+            cols = (f'{g}.area.x_coordinates()', f'range({g}.shape.width)',
+                    f'range({g}.area.width)')
+            if its.get(ty) in rows and its.get(tx) in cols:
+                loop_ok, yx = True, (ty, tx)
         conj = w.expand_formula(strip_iter(e.guard), stop=[g, pipe.vis_name])
         parts = list(conj[1:]) if conj[0] == 'and' else ([] if conj == ('true',) else [conj])
         vis_parts, other = [], []
@@ -219,8 +232,9 @@ def masking(index: RepoIndex, rep, rule: str, pipe: Pipeline) -> None:
             else:
                 other.append(p)
         guard_ok = len(vis_parts) == 1 and vis_parts[0][0] and not other and \
-            src(vis_parts[0][1].slice) in (f'({pos}.y, {pos}.x)', f'{pos}.yx',
-                                           f'({pos}.yx[0], {pos}.yx[1])')
+            src(vis_parts[0][1].slice) in ((f'({pos}.y, {pos}.x)', f'{pos}.yx',
+                                            f'({pos}.yx[0], {pos}.yx[1])') if yx is None
+                                           else (f'({yx[0]}, {yx[1]})',))
         reason = []
         if not val_ok:
             reason.append(f'stores `{src(e.value) if e.value is not None else None}` instead of Hidden()')
